@@ -5710,3 +5710,62 @@ func c02r13(c *Ctx, r *Report) {
 	r.ok("fzf+algo:products in platform int", token.NoPos, nil, fmt.Sprintf("%d capacity comparisons inspected", nCap))
 	r.floor("comparisons with a capacity", nCap, 2)
 }
+
+// c14r16: fzf cleans up (terminal modes, temporary files, the preview and reload commands, which run in
+// process groups of their own) on the signals it catches. A session that loses its terminal gets SIGHUP; it
+// has to be among the caught signals, next to SIGINT and SIGTERM (D54: it was not: closing the terminal window
+// killed fzf on the spot and left the running preview command behind).
+func c14r16(c *Ctx, r *Report) {
+	l := c.L
+	r.rule("C14-R16", "E (the caught signals cover the ways a session ends)", "P1",
+		"the signal.Notify call of Terminal.Loop whose channel feeds the quit request registers SIGINT, SIGTERM and SIGHUP",
+		"when the terminal is closed, the preview / reload commands of the session keep running")
+	loop := l.Fn("fzf", "(*Terminal).Loop")
+	if loop == nil {
+		r.unest("anchors", token.NoPos, nil, "anchor Terminal.Loop", "cannot resolve")
+		return
+	}
+	n := 0
+	eachInstr(loop, func(in ssa.Instruction) {
+		call, ok := in.(*ssa.Call)
+		if !ok || calleeName(call.Common()) != "os/signal.Notify" {
+			return
+		}
+		// the signals: elements stored into the variadic array
+		sigs := map[int64]bool{}
+		for w := range backwardSlice(call.Call.Args[1], nil, nil) {
+			al, ok := w.(*ssa.Alloc)
+			if !ok || al.Referrers() == nil {
+				continue
+			}
+			for _, ref := range *al.Referrers() {
+				ia, ok := ref.(*ssa.IndexAddr)
+				if !ok || ia.Referrers() == nil {
+					continue
+				}
+				for _, r2 := range *ia.Referrers() {
+					st, ok := r2.(*ssa.Store)
+					if !ok {
+						continue
+					}
+					for v := range backwardSlice(st.Val, nil, nil) {
+						if k, isK := constIntVal(v); isK {
+							sigs[k] = true
+						}
+						if u, ok := v.(*ssa.UnOp); ok {
+							if g, ok := u.X.(*ssa.Global); ok && g.Name() == "Interrupt" {
+								sigs[2] = true
+							}
+						}
+					}
+				}
+			}
+		}
+		if !sigs[2] && !sigs[15] {
+			return // another Notify (e.g. resize)
+		}
+		n++
+		r.check(sigs[2] && sigs[15] && sigs[1], relName(loop)+":SIGINT, SIGTERM and SIGHUP are caught", call.Pos(), loop, "all three registered", "SIGHUP is not registered: a closed terminal kills fzf without its clean-up")
+	})
+	r.floor("signal registrations for the quit request", n, 1)
+}
